@@ -688,7 +688,7 @@ pub fn run(prop: &dyn Prop, tier: Tier, seed: u64) -> i32 {
             // relaunch after an abort/stall so the rest of the share is still explored
             let mut all: Vec<WorkerResult> = vec![];
             let mut from = (0usize, 0u64);
-            for _attempt in 0..25 {
+            for _attempt in 0..8 {
                 let r = match spawn_worker(&id, tier, seed, k, n, from.0, from.1) {
                     Ok(r) => r,
                     Err(e) => {
